@@ -198,6 +198,10 @@ def run(ctx):
         elif rec["kind"] == "sec":
             ctx.violation(clause, {"kind": "sec", "lines": rec["text"], "foreign": rec["foreign"], "got": rec["got"], "raised": rec["raised"]}, key=clause)
     ctx.exhaustive = True
+    # block boundaries: the section laid out so that boundaries of every power-of-two block size (and of multiples of 1000)
+    # fall right behind, just after and inside its lines; > 2^20 characters; through from_file and from_filepath
+    from chartgen import judge_block_alignment
+    judge_block_alignment(ctx, "C07", ['track'])
     ctx.assumptions += [
         "language inclusion / disjointness is decided for strings of every length over a representative character pool (printable ASCII that matters, "
         "one representative per Unicode class the engine distinguishes, every literal and range end-point of the shipped patterns +-1)",
